@@ -195,6 +195,9 @@ def run (args : List String) : String :=
     -- channel answers at once: the call returns the callback's error
     "until=err"
   | ["reader-exit-unknown", _, _] | ["reader-exit-unknown", _] => if readerErrSendsGuarded then "connclose=ok reader=ended" else "connclose=ok reader=ended|connclose=ok reader=alive"
+  -- a token without a package type becomes a tokenless package that takes the rest of its message; the
+  -- message after it is delivered as usual
+  | ["unknown-token", _, _] => "next=pkg connclose=ok reader=ended"
   | ["reader-exit", _] => if readerErrSendsGuarded then "connclose=ok reader=ended" else "connclose=ok reader=ended|connclose=ok reader=alive"
   | _ => "bad-op"
 
